@@ -30,6 +30,7 @@ class Sched:
         self.npoints = 0
         self.record = None        # optional list collecting (kind, name) of every yield point
         self.dead = False
+        self.failed = None        # exception that ended an injected operation (the primary's code may have swallowed it)
 
     def add(self, at, fn, tid=1, name=None):
         self.pending.append((at, tid, fn, name or getattr(fn, '__name__', 'op')))
@@ -54,12 +55,13 @@ class Sched:
             try:
                 fn()
                 self.ran.append(opname)
-            except BaseException:
+            except BaseException as ex:
                 # the schedule is being abandoned (or the code under test failed): while the exception
                 # unwinds through the primary's frames no further step may be injected
                 self.cur = prev
                 self.busy = True
                 self.dead = True
+                self.failed = ex
                 raise
             self.cur = prev
             self.busy = False
@@ -70,6 +72,15 @@ class Sched:
 
     def stop(self):
         self.busy = True
+        f, self.failed = self.failed, None
+        if f is not None:
+            # An injected operation did not complete.  If the exception was passed on by the primary's code the harness
+            # has seen it already (and this path ends there); if the primary's code SWALLOWED it (e.g. an `except
+            # Exception` around the file operation that served as yield point) the schedule is incomplete all the same:
+            if isinstance(f, Blocked):
+                api.assume(False)             # it would have had to wait: not an atomic step at this point
+            if isinstance(f, Exception):
+                raise f                       # a failure of the injected operation itself must not get lost
 
 
 SCHED = Sched()
